@@ -26,6 +26,7 @@ type Engine struct {
 	tr    *Tracer
 	self  int64
 	epoch int64 // incremented at the start of every run
+	censusEpoch int64 // run whose post-completion census has been taken
 
 	emu sync.Mutex
 	ex  map[int64]bool
@@ -182,6 +183,48 @@ func (e *Engine) noteQuiesce(cs []*callRun) {
 	}
 }
 
+// censusT: once every call of the run has been completed and consumed -- the
+// caller holds the final result -- and before the harness itself ends the
+// contexts, no goroutine of the library may be left, apart from those that
+// are running user code (the handler, the caller's own operations): they have
+// a frame of the harness. Goroutines on their way out get 300 ms.
+func (e *Engine) censusT(sc *Script, cs []*callRun) {
+	if e.censusEpoch == atomic.LoadInt64(&e.epoch) || gates.anyParked() {
+		return
+	}
+	for _, c := range cs {
+		if atomic.LoadInt32(&c.term) == 0 {
+			return
+		}
+	}
+	if !e.rest(sc) {
+		return
+	}
+	e.censusEpoch = atomic.LoadInt64(&e.epoch)
+	var n int
+	var tops []string
+	for i := 0; i < 60; i++ {
+		n, tops = 0, nil
+		for _, g := range goroutines() {
+			if g.lib && !g.harn {
+				n++
+				tops = append(tops, g.top)
+			}
+		}
+		if n == 0 {
+			break
+		}
+		time.Sleep(5 * time.Millisecond)
+	}
+	for _, c := range cs {
+		if n > 0 {
+			e.tr.Emit(c.id, "CensusT", "n", n, "tops", tops)
+		} else {
+			e.tr.Emit(c.id, "CensusT", "n", 0)
+		}
+	}
+}
+
 // releaseCtxWaiters lets handlers that wait for their context give up once the
 // system is at rest although the call's context has ended.
 func (e *Engine) releaseCtxWaiters(sc *Script, cs []*callRun) {
@@ -261,6 +304,8 @@ func (e *Engine) RunSched(sc *Script) []Ev {
 		}
 		e.releaseCtxWaiters(sc, cs)
 		e.noteQuiesce(cs)
+		// the first point of rest at which the caller holds the final result
+		e.censusT(sc, cs)
 	}
 	for _, who := range sc.Sched {
 		step(who)
@@ -278,6 +323,7 @@ func (e *Engine) winddown(sc *Script, cs []*callRun) {
 		e.rest(sc)
 		e.noteQuiesce(cs)
 	}
+	e.censusT(sc, cs)
 	for _, c := range cs {
 		e.tr.Emit(c.id, "Winddown")
 		c.doCancel("cancel")
@@ -396,6 +442,7 @@ func (e *Engine) RunFree(sc *Script) []Ev {
 		e.noteQuiesce(cs)
 		fmt.Fprintf(os.Stderr, "free run %s did not finish\n", sc.ID)
 	}
+	e.censusT(sc, cs)
 	for _, c := range cs {
 		e.tr.Emit(c.id, "Winddown")
 		c.doCancel("cancel")
